@@ -1,78 +1,30 @@
 /-
 C11, third file — floats met inside lines, in full: every document the flow model lays out (block-level floats,
 floats met inside the lines of paragraphs, lines that are started again, BFC roots, images, tables, blocks) keeps the
-float list on top of the stack of formatting contexts pairwise disjoint with tops in order, and the margin boxes
-the model reports for *all* floats (block-level and inline) are a sub-list of that list: no two reported floats
-overlap and no float is higher than an earlier one.  Possible since 330f66c (floats are no longer moved with their
-line); the floats that an abandoned pass of `get_next_linebox` leaves behind (finding inline-float-laid-out-twice)
-only add members to the list, so the statement needs no hypothesis about restarts.
+float list of the formatting context pairwise disjoint with tops in order, and the margin boxes the model reports
+for *all* floats (block-level and inline) are exactly that list: no two floats overlap and no float is higher than
+an earlier one.  Possible since 330f66c (floats are no longer moved with their line) and exact since 58d1f9d (a
+line that is started again restores the float list in place, so the floats of the abandoned pass are gone).
 -/
 import WpModel.Props.C11Flow
 
 namespace Wp.C11
 open Wp Wp.Floats
 
-/-- `float_layout` with its two float lists keeps the stack's top well formed — whatever list the clearance was
-computed from — and appends exactly the margin box of the placed float. -/
-theorem floatLayout_inv (attr top : List Shape) (b : ABox) (cb : CB) (b' : ABox) (top' : List Shape)
-    (hg : GoodFloat b) (hinv : FloatsInv top) (h : floatLayout attr top b cb = .ok (b', top')) :
-    FloatsInv top' ∧ ∃ s, top' = top ++ [s] ∧ Shape.rect s = (b'.px, b'.py, b'.marginWidth, b'.marginHeight) := by
-  obtain ⟨hf, hz, hmh, hmw⟩ := hg
-  obtain ⟨hp, hs, hd⟩ := hinv
-  unfold floatLayout at h
-  simp only at h
-  split at h
-  · simp at h
-  · rename_i x y hpos
-    simp only [Except.ok.injEq, Prod.mk.injEq] at h
-    obtain ⟨f1, f2, f3, f4, _⟩ := afterClearance_fields attr b
-    have hf1 : (afterClearance attr b).float ≠ .none := by rw [f1]; exact hf
-    have hz1 : (afterClearance attr b).bh ≠ 0 := by rw [f2]; exact hz
-    have hmh1 : 0 < (afterClearance attr b).marginHeight := by rw [f3]; exact hmh
-    obtain ⟨_, r2, _, _⟩ := float_rules top _ cb x y hf1 hpos
-    obtain ⟨hno, _⟩ := float_no_overlap top _ cb x y hf1 hz1 hmh1 hp hpos
-    rw [f3, f4] at hno
-    obtain ⟨hb', ht'⟩ := h
-    have hshape : ({ afterClearance attr b with px := x, py := y } : ABox).toShape =
-        ⟨x, y, b.marginWidth, b.marginHeight, if b.float = .right then Side.right else Side.left⟩ := by
-      simp only [ABox.toShape, ABox.marginWidth, ABox.marginHeight] at *
-      rw [f1, f3, f4]
-    rw [hshape] at ht'
-    subst ht'
-    refine ⟨⟨?_, ?_, ?_⟩, _, rfl, ?_⟩
-    · intro s hsm
-      rcases List.mem_append.mp hsm with h1 | h1
-      · exact hp s h1
-      · simp at h1; subst h1; exact ⟨hmh, hmw⟩
-    · unfold SortedTops
-      rw [List.pairwise_append]
-      refine ⟨hs, by simp, ?_⟩
-      intro a ha c hc
-      simp at hc; subst hc; simp
-      cases hl : top.getLast? with
-      | none => simp [List.getLast?_eq_none_iff] at hl; subst hl; simp at ha
-      | some l =>
-        have h1 : ∀ s ∈ top, s.y ≤ l.y := by
-          intro s hsm
-          have hmem : l ∈ top := List.mem_of_getLast? hl
-          unfold SortedTops at hs
-          rcases List.getLast?_eq_some_iff.mp hl with ⟨pre, hpre⟩
-          rw [hpre] at hs hsm
-          rcases List.mem_append.mp hsm with h2 | h2
-          · exact (List.pairwise_append.mp hs).2.2 s h2 l (by simp)
-          · simp at h2; subst h2; exact Rat.le_refl
-        have := h1 a ha
-        have := r2 l hl
-        grind
-    · unfold PairwiseDisjoint
-      rw [List.pairwise_append]
-      refine ⟨hd, by simp, ?_⟩
-      intro a ha c hc
-      simp at hc; subst hc
-      exact hno a ha
-    · rw [← hb']
-      simp [Shape.rect, ABox.marginWidth, ABox.marginHeight] at f3 f4 ⊢
-      constructor <;> grind
+/-- `float_layout`'s placement keeps the float list well formed and appends exactly the margin box of the placed
+float. -/
+theorem floatPlace_inv (shapes : List Shape) (b : ABox) (cb : CB) (b' : ABox) (shapes' : List Shape)
+    (hg : GoodFloat b) (hinv : FloatsInv shapes) (h : floatPlace shapes b cb = .ok (b', shapes')) :
+    FloatsInv shapes' ∧ ∃ s, shapes' = shapes ++ [s] ∧
+      Shape.rect s = (b'.px, b'.py, b'.marginWidth, b'.marginHeight) := by
+  obtain ⟨hf, hmh, hmw⟩ := hg
+  obtain ⟨i1, i2, i3, _, _⟩ := float_place_invariants shapes b cb b' shapes' hf hmh hmw hinv.1 hinv.2.1 hinv.2.2 h
+  obtain ⟨x, y, _, hb', hsh⟩ := floatPlace_ok shapes b cb b' shapes' h
+  obtain ⟨_, _, f3, f4, _⟩ := afterClearance_fields shapes b
+  refine ⟨⟨i1, i2, i3⟩, _, hsh, ?_⟩
+  rw [hb']
+  simp [Shape.rect, ABox.marginWidth, ABox.marginHeight] at f3 f4 ⊢
+  constructor <;> grind
 
 /-- The margin boxes of the floats of a line that were laid out by the first pass. -/
 def keptRects (marks : List (ABox × Option (Rat × Rat × Rat × Rat))) : List (Rat × Rat × Rat × Rat) :=
@@ -84,18 +36,18 @@ def OkMarks : List (ABox × Option (Rat × Rat × Rat × Rat)) → Prop
   | (_, some _) :: rest => OkMarks rest
   | (_, none) :: rest => ∀ e ∈ rest, e.2 = none
 
-/-- First pass over the floats of a line: the stack's top stays well formed, grows exactly by the floats laid out
+/-- First pass over the floats of a line: the float list stays well formed, grows exactly by the floats laid out
 on the line (in order), and the marks have the "placed prefix, waiting suffix" shape. -/
-theorem inlinePass1_inv (cb : CB) (lineY : Rat) (attr top : List Shape) (rem : Rat) (w : Bool) (bs : List ABox)
-    (attr' top' : List Shape) (marks : List (ABox × Option (Rat × Rat × Rat × Rat)))
-    (hg : ∀ b ∈ bs, GoodFloat b) (hinv : FloatsInv top)
-    (h : inlinePass1 cb lineY attr top rem w bs = .ok (attr', top', marks)) :
-    FloatsInv top' ∧ (∃ added, top' = top ++ added ∧ added.map Shape.rect = keptRects marks) ∧
+theorem inlinePass1_inv (cb : CB) (lineY : Rat) (shapes : List Shape) (rem : Rat) (w : Bool) (bs : List ABox)
+    (shapes' : List Shape) (marks : List (ABox × Option (Rat × Rat × Rat × Rat)))
+    (hg : ∀ b ∈ bs, GoodFloat b) (hinv : FloatsInv shapes)
+    (h : inlinePass1 cb lineY shapes rem w bs = .ok (shapes', marks)) :
+    FloatsInv shapes' ∧ (∃ added, shapes' = shapes ++ added ∧ added.map Shape.rect = keptRects marks) ∧
     OkMarks marks ∧ (∀ m ∈ marks, GoodFloat m.1) := by
-  induction bs generalizing attr top rem w attr' top' marks with
+  induction bs generalizing shapes rem w shapes' marks with
   | nil =>
     simp [inlinePass1] at h
-    obtain ⟨_, h2, h3⟩ := h
+    obtain ⟨h2, h3⟩ := h
     subst h2; subst h3
     exact ⟨hinv, ⟨[], by simp, by simp [keptRects]⟩, trivial, by simp⟩
   | cons b rest ih =>
@@ -104,15 +56,12 @@ theorem inlinePass1_inv (cb : CB) (lineY : Rat) (attr top : List Shape) (rem : R
     · -- this float waits
       split at h
       · simp at h
-      · rename_i a t o hrec
+      · rename_i a o hrec
         simp only [Except.ok.injEq, Prod.mk.injEq] at h
-        obtain ⟨_, h2, h3⟩ := h
+        obtain ⟨h2, h3⟩ := h
         subst h2; subst h3
-        rename_i hcond
-        have hall : ∀ e ∈ o, e.2 = none := by
-          have := inline_waiting_is_suffix cb lineY attr top rem rest a t o hrec
-          exact this.2.2
-        obtain ⟨i1, ⟨added, i2, i3⟩, _, i5⟩ := ih attr top rem true a t o (fun b hb => hg b (by simp [hb])) hinv hrec
+        have hall : ∀ e ∈ o, e.2 = none := (inline_waiting_is_suffix cb lineY shapes rem rest a o hrec).2
+        obtain ⟨i1, ⟨added, i2, i3⟩, _, i5⟩ := ih shapes rem true a o (fun b hb => hg b (by simp [hb])) hinv hrec
         refine ⟨i1, ⟨added, i2, by simpa [keptRects] using i3⟩, hall, ?_⟩
         intro m hm
         rcases List.mem_cons.mp hm with hm | hm
@@ -120,16 +69,16 @@ theorem inlinePass1_inv (cb : CB) (lineY : Rat) (attr top : List Shape) (rem : R
         · exact i5 m hm
     · split at h
       · simp at h
-      · rename_i b' top1 hpl
+      · rename_i b' sh1 hpl
         split at h
         · simp at h
-        · rename_i a t o hrec
+        · rename_i a o hrec
           simp only [Except.ok.injEq, Prod.mk.injEq] at h
-          obtain ⟨_, h2, h3⟩ := h
+          obtain ⟨h2, h3⟩ := h
           subst h2; subst h3
-          obtain ⟨j1, s, j2, j3⟩ := floatLayout_inv attr top _ cb b' top1
+          obtain ⟨j1, s, j2, j3⟩ := floatPlace_inv shapes _ cb b' sh1
             (GoodFloat_move b cb.cx lineY (hg b (by simp))) hinv hpl
-          obtain ⟨i1, ⟨added, i2, i3⟩, i4, i5⟩ := ih top1 top1 _ false a t o
+          obtain ⟨i1, ⟨added, i2, i3⟩, i4, i5⟩ := ih sh1 _ false a o
             (fun b hb => hg b (by simp [hb])) j1 hrec
           refine ⟨i1, ⟨s :: added, by rw [i2, j2]; simp, ?_⟩, i4, ?_⟩
           · simp [keptRects] at i3 ⊢
@@ -139,17 +88,17 @@ theorem inlinePass1_inv (cb : CB) (lineY : Rat) (attr top : List Shape) (rem : R
             · rw [hm]; exact hg b (by simp)
             · exact i5 m hm
 
-/-- End of the line, when every float waits: the stack's top grows exactly by the reported floats. -/
-private theorem inlinePass2_waiting (cb : CB) (lineBottom : Rat) (attr top : List Shape)
-    (marks : List (ABox × Option (Rat × Rat × Rat × Rat))) (attr' top' : List Shape)
+/-- End of the line, when every float waits: the float list grows exactly by the reported floats. -/
+private theorem inlinePass2_waiting (cb : CB) (lineBottom : Rat) (shapes : List Shape)
+    (marks : List (ABox × Option (Rat × Rat × Rat × Rat))) (shapes' : List Shape)
     (rects : List (Rat × Rat × Rat × Rat))
-    (hnone : ∀ e ∈ marks, e.2 = none) (hg : ∀ m ∈ marks, GoodFloat m.1) (hinv : FloatsInv top)
-    (h : inlinePass2 cb lineBottom attr top marks = .ok (attr', top', rects)) :
-    FloatsInv top' ∧ ∃ added, top' = top ++ added ∧ added.map Shape.rect = rects := by
-  induction marks generalizing attr top attr' top' rects with
+    (hnone : ∀ e ∈ marks, e.2 = none) (hg : ∀ m ∈ marks, GoodFloat m.1) (hinv : FloatsInv shapes)
+    (h : inlinePass2 cb lineBottom shapes marks = .ok (shapes', rects)) :
+    FloatsInv shapes' ∧ ∃ added, shapes' = shapes ++ added ∧ added.map Shape.rect = rects := by
+  induction marks generalizing shapes shapes' rects with
   | nil =>
     simp [inlinePass2] at h
-    obtain ⟨_, h2, h3⟩ := h
+    obtain ⟨h2, h3⟩ := h
     subst h2; subst h3
     exact ⟨hinv, [], by simp, by simp⟩
   | cons m rest ih =>
@@ -159,31 +108,31 @@ private theorem inlinePass2_waiting (cb : CB) (lineBottom : Rat) (attr top : Lis
     simp only [inlinePass2] at h
     split at h
     · simp at h
-    · rename_i b' top1 hpl
+    · rename_i b' sh1 hpl
       split at h
       · simp at h
-      · rename_i a t out hrec
+      · rename_i a out hrec
         simp only [Except.ok.injEq, Prod.mk.injEq] at h
-        obtain ⟨_, h2, h3⟩ := h
+        obtain ⟨h2, h3⟩ := h
         subst h2; subst h3
-        obtain ⟨j1, s, j2, j3⟩ := floatLayout_inv attr top _ cb b' top1
+        obtain ⟨j1, s, j2, j3⟩ := floatPlace_inv shapes _ cb b' sh1
           (GoodFloat_move b cb.cx lineBottom (hg (b, none) (by simp))) hinv hpl
-        obtain ⟨i1, added, i2, i3⟩ := ih top1 top1 a t out (fun e he => hnone e (by simp [he]))
+        obtain ⟨i1, added, i2, i3⟩ := ih sh1 a out (fun e he => hnone e (by simp [he]))
           (fun m hm => hg m (by simp [hm])) j1 hrec
         exact ⟨i1, s :: added, by rw [i2, j2]; simp, by simp [j3, i3]⟩
 
 /-- End of the line: the reported floats of the line are the ones kept by the first pass followed by the ones laid
-out now, and the stack's top grows exactly by the latter. -/
-theorem inlinePass2_inv (cb : CB) (lineBottom : Rat) (attr top : List Shape)
-    (marks : List (ABox × Option (Rat × Rat × Rat × Rat))) (attr' top' : List Shape)
+out now, and the float list grows exactly by the latter. -/
+theorem inlinePass2_inv (cb : CB) (lineBottom : Rat) (shapes : List Shape)
+    (marks : List (ABox × Option (Rat × Rat × Rat × Rat))) (shapes' : List Shape)
     (rects : List (Rat × Rat × Rat × Rat))
-    (hok : OkMarks marks) (hg : ∀ m ∈ marks, GoodFloat m.1) (hinv : FloatsInv top)
-    (h : inlinePass2 cb lineBottom attr top marks = .ok (attr', top', rects)) :
-    FloatsInv top' ∧ ∃ added, top' = top ++ added ∧ rects = keptRects marks ++ added.map Shape.rect := by
-  induction marks generalizing attr top attr' top' rects with
+    (hok : OkMarks marks) (hg : ∀ m ∈ marks, GoodFloat m.1) (hinv : FloatsInv shapes)
+    (h : inlinePass2 cb lineBottom shapes marks = .ok (shapes', rects)) :
+    FloatsInv shapes' ∧ ∃ added, shapes' = shapes ++ added ∧ rects = keptRects marks ++ added.map Shape.rect := by
+  induction marks generalizing shapes shapes' rects with
   | nil =>
     simp [inlinePass2] at h
-    obtain ⟨_, h2, h3⟩ := h
+    obtain ⟨h2, h3⟩ := h
     subst h2; subst h3
     exact ⟨hinv, [], by simp, by simp [keptRects]⟩
   | cons m rest ih =>
@@ -193,11 +142,11 @@ theorem inlinePass2_inv (cb : CB) (lineBottom : Rat) (attr top : List Shape)
       simp only [inlinePass2] at h
       split at h
       · simp at h
-      · rename_i a t out hrec
+      · rename_i a out hrec
         simp only [Except.ok.injEq, Prod.mk.injEq] at h
-        obtain ⟨_, h2, h3⟩ := h
+        obtain ⟨h2, h3⟩ := h
         subst h2; subst h3
-        obtain ⟨i1, added, i2, i3⟩ := ih attr top a t out hok (fun m hm => hg m (by simp [hm])) hinv hrec
+        obtain ⟨i1, added, i2, i3⟩ := ih shapes a out hok (fun m hm => hg m (by simp [hm])) hinv hrec
         exact ⟨i1, added, i2, by simp [keptRects] at i3 ⊢; exact i3⟩
     | none =>
       have hnone : ∀ e ∈ (b, none) :: rest, e.2 = none := by
@@ -205,43 +154,34 @@ theorem inlinePass2_inv (cb : CB) (lineBottom : Rat) (attr top : List Shape)
         rcases List.mem_cons.mp he with he | he
         · rw [he]
         · exact hok e he
-      obtain ⟨i1, added, i2, i3⟩ := inlinePass2_waiting cb lineBottom attr top _ attr' top' rects hnone hg hinv h
+      obtain ⟨i1, added, i2, i3⟩ := inlinePass2_waiting cb lineBottom shapes _ shapes' rects hnone hg hinv h
       refine ⟨i1, added, i2, ?_⟩
       have hk : keptRects ((b, none) :: rest) = [] := by
         simp only [keptRects, List.filterMap_eq_nil_iff]
         intro e he; exact hnone e he
       rw [hk, i3]; simp
 
-/-- What is known after `get_next_linebox`: the stack's top is well formed and has only grown, and the floats the
-last pass kept on the line are, in order, among what was added. -/
-structure LineInv (top : List Shape) (t : LineTry) : Prop where
-  inv : FloatsInv t.top
-  grown : ∃ added, t.top = top ++ added ∧ (keptRects t.marks).Sublist (added.map Shape.rect)
+/-- What is known after `get_next_linebox`: the float list is well formed and is the list from before the line
+followed by exactly the floats the (last) pass kept on the line — whatever passes were abandoned before. -/
+structure LineInv (shapes0 : List Shape) (t : LineTry) : Prop where
+  inv : FloatsInv t.shapes
+  grown : ∃ added, t.shapes = shapes0 ++ added ∧ added.map Shape.rect = keptRects t.marks
   ok : OkMarks t.marks
   good : ∀ m ∈ t.marks, GoodFloat m.1
 
 theorem lineLoop_inv (cb : CB) (strut : Rat) (align : Align) (l : LineSpec) (shapes0 : List Shape)
-    (hg : ∀ b ∈ l.floats, GoodFloat b) (fuel : Nat) (attr top : List Shape) (px py avail lbw cand : Rat)
-    (t : LineTry) (hinv : FloatsInv top)
-    (h : lineLoop cb strut align l shapes0 fuel attr top px py avail lbw cand = .ok t) : LineInv top t := by
-  induction fuel generalizing attr top px py avail lbw cand with
+    (hg : ∀ b ∈ l.floats, GoodFloat b) (fuel : Nat) (px py avail lbw cand : Rat)
+    (t : LineTry) (hinv : FloatsInv shapes0)
+    (h : lineLoop cb strut align l shapes0 fuel px py avail lbw cand = .ok t) : LineInv shapes0 t := by
+  induction fuel generalizing px py avail lbw cand with
   | zero => simp [lineLoop] at h
   | succ n ih =>
     simp only [lineLoop] at h
     split at h
     · simp at h
-    · rename_i shapes1 top1 marks hp1
-      obtain ⟨i1, ⟨added, i2, i3⟩, i4, i5⟩ := inlinePass1_inv cb py _ top _ false l.floats shapes1 top1 marks hg hinv hp1
-      have mk : ∀ x y, LineInv top ⟨shapes1, top1, marks, x, y⟩ := fun x y =>
-        ⟨i1, ⟨added, i2, by rw [i3]; exact List.Sublist.refl _⟩, i4, i5⟩
-      -- started again: the floats of this pass stay on the stack's top
-      have restart : ∀ px' py' avail' lbw' cand',
-          lineLoop cb strut align l shapes0 n shapes0 top1 px' py' avail' lbw' cand' = .ok t → LineInv top t := by
-        intro px' py' avail' lbw' cand' h'
-        have r := ih shapes0 top1 px' py' avail' lbw' cand' i1 h'
-        obtain ⟨added2, r2, r3⟩ := r.grown
-        exact ⟨r.inv, ⟨added ++ added2, by rw [r2, i2]; simp, by
-          rw [List.map_append]; exact List.Sublist.trans r3 (List.sublist_append_right _ _)⟩, r.ok, r.good⟩
+    · rename_i shapes1 marks hp1
+      obtain ⟨i1, ⟨added, i2, i3⟩, i4, i5⟩ := inlinePass1_inv cb py shapes0 _ false l.floats shapes1 marks hg hinv hp1
+      have mk : ∀ x y, LineInv shapes0 ⟨shapes1, marks, x, y⟩ := fun x y => ⟨i1, ⟨added, i2, i3⟩, i4, i5⟩
       split at h
       · simp at h
       · split at h
@@ -252,21 +192,21 @@ theorem lineLoop_inv (cb : CB) (strut : Rat) (align : Align) (l : LineSpec) (sha
               simp only [hr, Bool.not_false, Bool.not_true, if_true, Bool.false_eq_true, if_false] at h <;>
               split at h <;>
               first
-                | exact restart _ _ _ _ _ h
+                | exact ih _ _ _ _ _ h
                 | (simp only [Except.ok.injEq] at h; rw [← h]; exact mk _ _)
 
-/-- All the lines of a paragraph: the stack's top stays well formed and only grows, and the floats reported for the
-lines are, in document order, among what was added. -/
-theorem layoutLines_inv (cb : CB) (fs : Rat) (align : Align) (attr top : List Shape) (ls : List LineSpec)
-    (hg : ∀ l ∈ ls, ∀ b ∈ l.floats, GoodFloat b) (y : Rat) (attr' top' : List Shape) (out : List PlacedLine)
-    (y' : Rat) (hinv : FloatsInv top)
-    (h : layoutLines cb fs align attr top ls y = .ok (attr', top', out, y')) :
-    FloatsInv top' ∧ ∃ added, top' = top ++ added ∧
-      ((out.map (·.floats)).flatten).Sublist (added.map Shape.rect) := by
-  induction ls generalizing attr top y attr' top' out y' with
+/-- All the lines of a paragraph: the float list stays well formed and grows exactly by the floats reported for
+the lines, in document order. -/
+theorem layoutLines_inv (cb : CB) (fs : Rat) (align : Align) (shapes : List Shape) (ls : List LineSpec)
+    (hg : ∀ l ∈ ls, ∀ b ∈ l.floats, GoodFloat b) (y : Rat) (shapes' : List Shape) (out : List PlacedLine)
+    (y' : Rat) (hinv : FloatsInv shapes)
+    (h : layoutLines cb fs align shapes ls y = .ok (shapes', out, y')) :
+    FloatsInv shapes' ∧ ∃ added, shapes' = shapes ++ added ∧
+      (out.map (·.floats)).flatten = added.map Shape.rect := by
+  induction ls generalizing shapes y shapes' out y' with
   | nil =>
     simp [layoutLines] at h
-    obtain ⟨_, h2, h3, _⟩ := h
+    obtain ⟨h2, h3, _⟩ := h
     subst h2; subst h3
     exact ⟨hinv, [], by simp, by simp⟩
   | cons l rest ih =>
@@ -274,30 +214,29 @@ theorem layoutLines_inv (cb : CB) (fs : Rat) (align : Align) (attr top : List Sh
     split at h
     · simp at h
     · rename_i t ht
-      have hl : LineInv top t := by
+      have hl : LineInv shapes t := by
         unfold nextLinebox at ht
         simp only at ht
         split at ht
         · simp at ht
-        · exact lineLoop_inv cb fs align l attr (hg l (by simp)) _ _ _ _ _ _ _ _ t hinv ht
+        · exact lineLoop_inv cb fs align l shapes (hg l (by simp)) _ _ _ _ _ _ t hinv ht
       obtain ⟨a1, e1, s1⟩ := hl.grown
       split at h
       · simp at h
-      · rename_i shapes2 top2 rects hp2
-        obtain ⟨k1, a2, e2, k3⟩ := inlinePass2_inv cb _ t.shapes t.top t.marks shapes2 top2 rects hl.ok hl.good hl.inv hp2
+      · rename_i shapes2 rects hp2
+        obtain ⟨k1, a2, e2, k3⟩ := inlinePass2_inv cb _ t.shapes t.marks shapes2 rects hl.ok hl.good hl.inv hp2
         split at h
         · simp at h
-        · rename_i shapes3 top3 restOut y3 hrec
+        · rename_i shapes3 restOut y3 hrec
           simp only [Except.ok.injEq, Prod.mk.injEq] at h
-          obtain ⟨_, h2, h3, _⟩ := h
+          obtain ⟨h2, h3, _⟩ := h
           subst h2; subst h3
-          obtain ⟨m1, a3, e3, m3⟩ := ih shapes2 top2 (fun l hl => hg l (by simp [hl])) _ _ _ _ _ k1 hrec
+          obtain ⟨m1, a3, e3, m3⟩ := ih shapes2 (fun l hl => hg l (by simp [hl])) _ _ _ _ k1 hrec
           refine ⟨m1, a1 ++ a2 ++ a3, by rw [e3, e2, e1]; simp, ?_⟩
           simp only [List.map_cons, List.flatten_cons, List.map_append]
-          rw [k3]
-          exact List.Sublist.append (List.Sublist.append s1 (List.Sublist.refl _)) m3
+          rw [k3, m3, s1]
 
-/-- The items of the full theorem: every float — block-level or met inside a line — has area. -/
+/-- The items of the full theorem: every float — block-level or met inside a line — has a margin box with area. -/
 def ItemOkAll (cb : CB) : Item → Prop
   | .float b => GoodFloat b
   | .floatSpec f => GoodFloat (floatResolve f cb.w)
@@ -313,22 +252,21 @@ def allFloatRects : List Placed → List (Rat × Rat × Rat × Rat)
   | _ :: rest => allFloatRects rest
 
 theorem flowStep_inv_all (cb : CB) (st st' : FlowState) (it : Item) (pl : Placed)
-    (hit : ItemOkAll cb it) (hinv : FloatsInv st.top) (h : flowStep cb st it = .ok (st', pl)) :
-    FloatsInv st'.top ∧ ∃ added, st'.top = st.top ++ added ∧
-      (allFloatRects [pl]).Sublist (added.map Shape.rect) := by
+    (hit : ItemOkAll cb it) (hinv : FloatsInv st.shapes) (h : flowStep cb st it = .ok (st', pl)) :
+    FloatsInv st'.shapes ∧
+      st'.shapes.map Shape.rect = st.shapes.map Shape.rect ++ allFloatRects [pl] := by
   have hfloat : ∀ b, GoodFloat b → flowFloat cb st b = .ok (st', pl) →
-      FloatsInv st'.top ∧ ∃ added, st'.top = st.top ++ added ∧
-        (allFloatRects [pl]).Sublist (added.map Shape.rect) := by
+      FloatsInv st'.shapes ∧
+        st'.shapes.map Shape.rect = st.shapes.map Shape.rect ++ allFloatRects [pl] := by
     intro b hb hfl
     unfold flowFloat at hfl
     split at hfl
     · simp at hfl
-    · rename_i b' top1 hpl
+    · rename_i b' sh1 hpl
       simp only [Except.ok.injEq, Prod.mk.injEq] at hfl
-      obtain ⟨j1, s, j2, j3⟩ := floatLayout_inv st.shapes st.top _ cb b' top1
-        (GoodFloat_move b cb.cx _ hb) hinv hpl
+      obtain ⟨j1, s, j2, j3⟩ := floatPlace_inv st.shapes _ cb b' sh1 (GoodFloat_move b cb.cx _ hb) hinv hpl
       rw [← hfl.1, ← hfl.2]
-      exact ⟨j1, [s], j2, by simp [allFloatRects, j3]⟩
+      exact ⟨j1, by simp [allFloatRects, j2, j3]⟩
   cases it with
   | float b => exact hfloat b hit (by simpa [flowStep] using h)
   | floatSpec f => exact hfloat _ hit (by simpa [flowStep] using h)
@@ -336,47 +274,48 @@ theorem flowStep_inv_all (cb : CB) (st st' : FlowState) (it : Item) (pl : Placed
     simp only [flowStep] at h
     split at h
     · simp at h
-    · rename_i shapes' top' placed y' hl
+    · rename_i shapes' placed y' hl
       simp only [Except.ok.injEq, Prod.mk.injEq] at h
-      obtain ⟨i1, added, i2, i3⟩ := layoutLines_inv cb fs align st.shapes st.top lines hit _ _ _ _ _ hinv hl
+      obtain ⟨i1, added, i2, i3⟩ := layoutLines_inv cb fs align st.shapes lines hit _ _ _ _ hinv hl
       rw [← h.1, ← h.2]
-      exact ⟨i1, added, i2, by simpa [allFloatRects] using i3⟩
+      exact ⟨i1, by simp [allFloatRects, i2, i3]⟩
   | bfc c width h0 ml mr mt mb =>
     simp only [flowStep] at h
     split at h
     · simp at h
     · simp only [Except.ok.injEq, Prod.mk.injEq] at h
       rw [← h.1, ← h.2]
-      split <;> exact ⟨hinv, [], by simp, by simp [allFloatRects]⟩
+      split <;> exact ⟨hinv, by simp [allFloatRects]⟩
   | block c h0 mt mb =>
     simp only [flowStep, Except.ok.injEq, Prod.mk.injEq] at h
     rw [← h.1, ← h.2]
-    split <;> exact ⟨hinv, [], by simp, by simp [allFloatRects]⟩
+    split <;> exact ⟨hinv, by simp [allFloatRects]⟩
   | replaced kind c w h0 ml mr =>
     simp only [flowStep] at h
     split at h
     · simp at h
     · simp only [Except.ok.injEq, Prod.mk.injEq] at h
       rw [← h.1, ← h.2]
-      exact ⟨hinv, [], by simp, by simp [allFloatRects]⟩
+      exact ⟨hinv, by simp [allFloatRects]⟩
 
 private theorem allFloatRects_cons (pl : Placed) (rest : List Placed) :
     allFloatRects (pl :: rest) = allFloatRects [pl] ++ allFloatRects rest := by
   cases pl <;> simp [allFloatRects]
 
 /-- **Every document, every float**: whatever mixture of block-level floats, paragraphs with floats met inside
-their lines (any side, size, margins, `clear`; lines that are started again included), BFC roots, images, tables and
-blocks, the list of floats of the formatting context stays pairwise disjoint with tops in document order, and the
-margin boxes reported for all the floats are, in document order, a sub-list of it. -/
+their lines (any side, size, margins, `clear`, empty border boxes; lines that are started again included), BFC
+roots, images, tables and blocks, the list of floats of the formatting context stays pairwise disjoint with tops in
+document order, and the margin boxes reported for all the floats are, in document order, exactly what was added to
+it. -/
 theorem flow_all_floats (cb : CB) (items : List Item) (st : FlowState) (out : List Placed)
-    (hit : ∀ it ∈ items, ItemOkAll cb it) (hinv : FloatsInv st.top)
+    (hit : ∀ it ∈ items, ItemOkAll cb it) (hinv : FloatsInv st.shapes)
     (h : flowFrom cb st items = .ok out) :
-    ∃ top', FloatsInv top' ∧ ∃ added, top' = st.top ++ added ∧
-      (allFloatRects out).Sublist (added.map Shape.rect) := by
+    ∃ shapes', FloatsInv shapes' ∧ floatsOk shapes' = true ∧
+      shapes'.map Shape.rect = st.shapes.map Shape.rect ++ allFloatRects out := by
   induction items generalizing st out with
   | nil =>
     simp [flowFrom] at h
-    exact ⟨st.top, hinv, [], by simp, by rw [h]; simp [allFloatRects]⟩
+    exact ⟨st.shapes, hinv, (floatsOk_iff _).mpr ⟨hinv.2.2, hinv.2.1⟩, by rw [h]; simp [allFloatRects]⟩
   | cons it rest ih =>
     simp only [flowFrom] at h
     split at h
@@ -386,11 +325,10 @@ theorem flow_all_floats (cb : CB) (items : List Item) (st : FlowState) (out : Li
       · simp at h
       · rename_i out' hrest
         simp only [Except.ok.injEq] at h
-        obtain ⟨i1, a1, e1, s1⟩ := flowStep_inv_all cb st st' it pl (hit it (by simp)) hinv hstep
-        obtain ⟨top', j1, a2, e2, s2⟩ := ih st' out' (fun it' h' => hit it' (by simp [h'])) i1 hrest
-        refine ⟨top', j1, a1 ++ a2, by rw [e2, e1]; simp, ?_⟩
-        rw [← h, allFloatRects_cons, List.map_append]
-        exact List.Sublist.append s1 s2
+        obtain ⟨i1, i2⟩ := flowStep_inv_all cb st st' it pl (hit it (by simp)) hinv hstep
+        obtain ⟨sh, j1, j2, j3⟩ := ih st' out' (fun it' h' => hit it' (by simp [h'])) i1 hrest
+        refine ⟨sh, j1, j2, ?_⟩
+        rw [j3, i2, ← h, allFloatRects_cons pl out', List.append_assoc]
 
 /-- The checker's verdict is inherited by sub-lists. -/
 theorem floatsOk_sublist (l1 l2 : List Shape) (hs : l1.Sublist l2) (h : floatsOk l2 = true) : floatsOk l1 = true := by
@@ -404,25 +342,21 @@ theorem flow_all_floats_accepted (cb : CB) (items : List Item) (y : Rat) (out : 
     (hit : ∀ it ∈ items, ItemOkAll cb it) (h : flow cb [] y items = .ok out) :
     ∃ shapes : List Shape, shapes.map Shape.rect = allFloatRects out ∧ floatsOk shapes = true ∧
       checkEvents [] 0 (shapes.map Event.float) = none := by
-  obtain ⟨top', i1, added, e1, s1⟩ := flow_all_floats cb items ⟨[], [], y, []⟩ out hit
+  obtain ⟨sh, _, h2, h3⟩ := flow_all_floats cb items ⟨[], y, []⟩ out hit
     ⟨by intro s hs; simp at hs, by simp [SortedTops], by simp [PairwiseDisjoint]⟩ h
-  simp only [List.nil_append] at e1
-  subst e1
-  obtain ⟨l', hl', hmap⟩ := List.sublist_map_iff.mp s1
-  have hok : floatsOk top' = true := (floatsOk_iff _).mpr ⟨i1.2.2, i1.2.1⟩
-  have hok' := floatsOk_sublist l' top' hl' hok
-  exact ⟨l', hmap.symm, hok', checkEvents_floats_complete [] 0 l' (by simpa using hok')⟩
+  exact ⟨sh, by simpa using h3, h2, checkEvents_floats_complete [] 0 sh (by simpa using h2)⟩
 
-/-- Non-vacuity: an rtl paragraph whose first line holds two floats is started again (the floats of the abandoned
-pass stay on the stack); the hypotheses hold and the reported floats are disjoint. -/
+/-- Non-vacuity: an rtl paragraph whose first line holds two floats is started again (the float list is restored);
+the hypotheses hold, the floats sit against the edges of the container, followed by a float with an empty border
+box placed below them. -/
 example :
     let items : List Item := [
-      .para .none 10 .start [{ w0 := 20, w := 20, h := 10, floats :=
-        [⟨0, 0, 0, 0, 0, 0, 20, 10, .left, .none, .bfc⟩, ⟨0, 0, 0, 0, 0, 0, 30, 5, .right, .none, .bfc⟩] }] 0 0,
-      .float ⟨0, 0, 0, 0, 0, 0, 50, 10, .left, .none, .bfc⟩]
+      .para .none 10 .start [⟨20, 20, 10,
+        [⟨0, 0, 0, 0, 0, 0, 20, 10, .left, .none, .bfc⟩, ⟨0, 0, 0, 0, 0, 0, 30, 5, .right, .none, .bfc⟩]⟩] 0 0,
+      .float ⟨0, 0, 5, 5, 0, 0, 80, 0, .left, .none, .bfc⟩]
     (∀ it ∈ items, ItemOkAll ⟨20, 100, true⟩ it) ∧
     ((flow ⟨20, 100, true⟩ [] 20 items).toOption.map allFloatRects) =
-      some [(40, 20, 20, 10), (60, 20, 30, 5), (20, 30, 50, 10)] := by
+      some [(20, 20, 20, 10), (90, 20, 30, 5), (20, 30, 80, 10)] := by
   refine ⟨?_, by decide +kernel⟩
   intro it hit
   simp at hit
